@@ -676,22 +676,37 @@ class Executor:
         return out
 
     def match_arms(self, n, v, st):
+        """First-match semantics over a set of states in which no earlier arm has matched."""
         out = []
-        cur = st  # state for "no earlier arm matched"
+        curs = [st]
         for i, arm in enumerate(n["arms"]):
-            s_try = cur.fork()
-            c = self.match_pat(arm["pat"], v, s_try)
-            if c is not True and c is not False:
-                d = s_try.decide(c)
-                if d is not None:
-                    c = d
-            if c is False:
-                continue
-            # guard
-            branches = [(s_try, c)]
-            fall = None   # state in which this arm did not match (symbolic case)
-            if "guard" in arm:
-                nb = []
+            nxt = []
+            for cur in curs:
+                s_try = cur.fork()
+                c = self.match_pat(arm["pat"], v, s_try)
+                if c is not True and c is not False:
+                    d = s_try.decide(c)
+                    if d is not None:
+                        c = d
+                if c is False:
+                    nxt.append(cur)
+                    continue
+                if "guard" not in arm:
+                    if c is not True:
+                        f = cur.fork()
+                        self.effect(f, "assume", (c, FALSE), node=arm["pat"], arm=i)
+                        nxt.append(f)
+                        self.effect(s_try, "assume", (c, TRUE), node=arm["pat"], arm=i)
+                    s_try.eff.append({"k": "arm", "args": (lit(i),), "res": None, "at": loc(arm["pat"]), "match": n["id"]})
+                    out.extend(self.ev(arm["body"], s_try))
+                    continue
+                # guarded arm: the guard may itself fork
+                pattern_fall = None
+                if c is not True:
+                    pattern_fall = cur.fork()
+                    self.effect(pattern_fall, "assume", (c, FALSE), node=arm["pat"], arm=i)
+                    self.effect(s_try, "assume", (c, TRUE), node=arm["pat"], arm=i)
+                    nxt.append(pattern_fall)
                 for sg, og in self.ev_cond(arm["guard"], s_try):
                     if og[0] != "val":
                         out.append((sg, og))
@@ -700,33 +715,21 @@ class Executor:
                     dg = sg.decide(g)
                     if dg is not None:
                         g = TRUE if dg else FALSE
-                    tot = self._cand(c, True if g == TRUE else (False if g == FALSE else g))
-                    if tot is not True:
+                    if g != TRUE:
                         f2 = sg.fork()
                         f2.env = dict(cur.env)
-                        if tot is not False:
-                            self.effect(f2, "assume", (tot, FALSE), node=arm["pat"], arm=i)
-                        fall = f2 if fall is None else fall
+                        if g != FALSE:
+                            self.effect(f2, "assume", (g, FALSE), node=arm["pat"], arm=i)
+                        nxt.append(f2)
                     if g == FALSE:
                         continue
-                    nb.append((sg, tot))
-                branches = nb
-            elif c is not True:
-                fall = cur.fork()
-                self.effect(fall, "assume", (c, FALSE), node=arm["pat"], arm=i)
-            definite = False
-            for sb, cb in branches:
-                if cb is True:
-                    definite = True
-                else:
-                    self.effect(sb, "assume", (cb, TRUE), node=arm["pat"], arm=i)
-                sb.eff.append({"k": "arm", "args": (lit(i),), "res": None, "at": loc(arm["pat"]), "match": n["id"]})
-                out.extend(self.ev(arm["body"], sb))
-            if definite:
-                return out
-            if fall is not None:
-                cur = fall
-        # fallthrough impossible for exhaustive matches
+                    if g != TRUE:
+                        self.effect(sg, "assume", (g, TRUE), node=arm["pat"], arm=i)
+                    sg.eff.append({"k": "arm", "args": (lit(i),), "res": None, "at": loc(arm["pat"]), "match": n["id"]})
+                    out.extend(self.ev(arm["body"], sg))
+            curs = nxt
+            if not curs:
+                break
         return out
 
     def ev_try(self, n, st):
